@@ -268,6 +268,9 @@ func (x *Exec) goStmt(st *State, g *ssa.Go) {
 			if fc, ok := x.prog.Contracts[key]; ok {
 				x.assertRequiresOnly(st, g, fc, fv.Fn, fv, args, shortFuncName(key))
 			}
+			if sw, ok := x.prog.Contracts[key+"@spawn"]; ok {
+				_ = sw
+			}
 		}
 	}
 	st.shared = true
@@ -301,6 +304,9 @@ func (x *Exec) assertRequiresOnly(st *State, in ssa.Instruction, fc *FuncContrac
 		t := x.evalBool(ctx, c)
 		x.oblige(st, "spawn", fmt.Sprintf("%s.%s#%d", lastName(shortName), c.Label, x.callOrd[in]), t, c.Text)
 	}
+	// ghost assignments of a spawned routine are recorded when it is issued
+	pre := st.clone()
+	x.applyGhostSets(st, fc, &EvalCtx{x: x, prog: x.prog, st: st, old: pre, vars: vars, pkg: pkg, noLocals: true})
 }
 
 // channels
